@@ -108,7 +108,11 @@ def judge(P, cases, impl, model, ctx):
         d = diff_case(io, mo) if mo is not None else None
         if d is not None:
             disagreements.append((case, d))
-        found = list(P.oracle(case, io, mo))
+        try:
+            found = list(P.oracle(case, io, mo))
+        except Exception as ex:
+            # observations the oracle cannot even parse (a corrupted load prints keys with separators in them, ...)
+            found = [("observation-unparseable", "the oracle could not read the implementation's observations of case %s: %r" % (cid, ex))]
         for j, l in enumerate(io["obs"]):
             if l.startswith("D") and "POISONED" in l[:12]:
                 found.append(("node-wedged", "after step %d a lock of the node is poisoned: every later command on it fails" % (j // 2)))
